@@ -178,6 +178,7 @@ def corrupted_controls(obs, rnd, n):
             if not want or not o["err"]:
                 continue
             o["dir"][want[0]] = "f:a:644"
+        c["base"] = c["case"]
         c["case"] = "CORRUPT%d:%s" % (kind, c["case"])
         out.append(c)
     return out
